@@ -147,6 +147,7 @@ def _build_bins(force=False, only=None):
 GENERATED = [
     ("GenPath.v", "harness.translator", "generate_current"),
     ("GenSched.v", "harness.c17_translator", "translate_current"),
+    ("GenNotify.v", "harness.c10_translator", "translate_current"),
 ]
 GEN_BASELINE = os.path.join(COQ, "gen_baseline")
 
